@@ -42,6 +42,22 @@ CLAIMED = {
             "152 theorems ledger_fail_balanced / success_exact / handle_null_or_untouched / preexisting_untouched per translated routine (loops with <= 2 pools are _partial); 104 scenarios x every k enumerated on the real library incl. ABT_init; two defects found and repaired (F10, F11), F9 repaired.",
             "Trusted: Lean kernel; laddergen.py + clang AST; classification table of acquiring/releasing callees (cross-checked by the enumeration); single failures only.",
             "DESIGN.md §5 C18"),
+    "C05": ("Lean 4 inductive-invariant proofs over interleaving LTSs (Model.WaitList: the spinlock + wait-list protocol incl. timed waits; Model.Cond on top of it) for any number of callers and all schedules + T1 skeleton tie + T3 validation of controlled-scheduler traces (virtual clock) against Model.Cond, the real pointer list compared with the model's list at every lock release",
+            "Theorems cond_atomic_release_wait, cond_waiter_queued_until_woken, cond_no_spurious, cond_returns_holding_mutex, cond_signal_broadcast_exact, cond_signal_at_most_one, cond_wrong_mutex_rejected over every reachable state of Model.Cond; every explored execution of the hooked runtime (ULT + external waiters, timed and untimed, signal/broadcast inside and outside the mutex) must be accepted event by event; monitors (mutex ownership at return, no wake-up without an overlapping signal, deadline respected) and deadlock detection look for concrete failures.",
+            "Trusted: Lean kernel; sequential consistency; vsched/hook/projection machinery; the user mutex is atomic in Model.Cond (its protocol is C04); futex wake counting not modelled.",
+            "DESIGN.md §5 C05"),
+    "C19": ("Lean 4 inductive-invariant proof over Model.WaitList (timed and untimed waiters, ULT and non-ULT, all interleavings, every outcome of each deadline comparison) + T1 skeleton tie (timed wait-list, futex, pool pop_wait/pop_timedwait, basic_wait) + T3 validation of virtual-clock traces, the real wait-list walked at every lock release",
+            "Theorems wl_lock_excl, wl_ops_under_lock, timed_out_consumes_no_signal, ready_only_dequeued, timed_success_if_signalled_first, timed_timeout_only_after_deadline, timed_queue_intact, wl_wake_only_suspended. Blocking pool pops are covered by T1 and the pool scenarios; a Lean model of the poll loop and a pointer-level model of the removal code (stale p_prev) are in progress (partial).",
+            "Trusted: Lean kernel; sequential consistency; virtual clock semantics of vsched; projection machinery.",
+            "DESIGN.md §5 C19"),
+    "C08": ("Lean 4 inductive-invariant proofs over an interleaving LTS of ABT_barrier (critical-section granularity with ghost rounds) and of the stream-barrier guard + T1 skeleton tie + T3 validation of controlled-scheduler traces with object snapshots at every lock release",
+            "16 theorems incl. barrier_none_early, barrier_all_released, barrier_round_isolation, barrier_reinit, barrier_tasklet_rejected_nochange, xbarrier_guard for every reachable state, any number of callers and rounds; traces of the real barrier (ULT + external waiters, fast re-entry, reinit) must be accepted with the snapshot fields equal to the model state; per-round arrival monitors + deadlock detection.",
+            "Trusted: Lean kernel; sequential consistency; pthread_barrier_wait (the build's stream barrier) as an ideal primitive; vsched/projection machinery.",
+            "DESIGN.md §5 C08"),
+    "C09": ("Lean 4 inductive-invariant proofs over interleaving LTSs of ABT_eventual and ABT_future (ghost epochs / value lists) + T1 skeleton tie + T3 validation of controlled-scheduler traces with object snapshots",
+            "24 theorems incl. ev_ready_once, ev_second_set_err_nochange, ev_wait_returns_after_ready_with_value, ev_test_not_early, ev_reset, fut_ready_at_nth, fut_callback_once_before_any_return, fut_extra_set_err, fut_values_all_passed, fut_zero_compartments (documented behaviour: no callback for 0 compartments; see DESIGN).",
+            "Trusted: Lean kernel; sequential consistency; vsched/projection machinery.",
+            "DESIGN.md §5 C09"),
 }
 NOT_YET = "machinery for this property is not built yet (work in progress; see DESIGN.md §10 build order)"
 
